@@ -34,6 +34,24 @@
 #define omp_get_max_threads() 1
 #endif
 
+#ifdef PGM_INDEX_VERIF
+#include <functional>
+namespace pgm::verif {
+struct Access; // defined by the verification harness, befriended by the classes it needs to look into
+
+/** Observation point of make_segmentation; empty unless a harness installs it (it must be thread-safe). */
+template<typename K>
+struct SegHooks {
+    /// (start, end, x, y, accepted): a point handed to the builder by make_segmentation(n, start, end, ...), and
+    /// whether the segment under construction accepted it (false: a segment was emitted and a new one started at x).
+    static inline std::function<void(size_t, size_t, K, size_t, bool)> on_point;
+};
+
+/// If > 0, make_segmentation_par splits the input in exactly this many chunks, whatever n and the thread count.
+inline int forced_parallelism = 0;
+}
+#endif
+
 namespace pgm::internal {
 
 template<typename T>
@@ -207,6 +225,10 @@ class OptimalPiecewiseLinearModel<X, Y>::CanonicalSegment {
     Point rectangle[4];
     X first;
 
+#ifdef PGM_INDEX_VERIF
+    friend struct pgm::verif::Access;
+#endif
+
     CanonicalSegment(const Point &p0, const Point &p1, X first) : rectangle{p0, p1, p0, p1}, first(first) {};
 
     CanonicalSegment(const Point (&rectangle)[4], X first)
@@ -278,11 +300,18 @@ size_t make_segmentation(size_t n, size_t start, size_t end, size_t epsilon, Fin
     size_t c = 0;
     OptimalPiecewiseLinearModel<K, size_t> opt(epsilon);
     auto add_point = [&](K x, size_t y) {
+#ifdef PGM_INDEX_VERIF
+        auto verif_c = c;
+#endif
         if (!opt.add_point(x, y)) {
             out(opt.get_segment());
             opt.add_point(x, y);
             ++c;
         }
+#ifdef PGM_INDEX_VERIF
+        if (pgm::verif::SegHooks<K>::on_point)
+            pgm::verif::SegHooks<K>::on_point(start, end, x, y, verif_c == c);
+#endif
     };
 
     add_point(in(start), start);
@@ -327,9 +356,16 @@ size_t make_segmentation(size_t n, size_t epsilon, Fin in, Fout out) {
 template<typename Fin, typename Fout>
 size_t make_segmentation_par(size_t n, size_t epsilon, Fin in, Fout out) {
     auto parallelism = std::min(std::min(omp_get_num_procs(), omp_get_max_threads()), 20);
+#ifdef PGM_INDEX_VERIF
+    if (pgm::verif::forced_parallelism > 0)
+        parallelism = pgm::verif::forced_parallelism;
+#endif
     auto chunk_size = n / parallelism;
     auto c = 0ull;
 
+#ifdef PGM_INDEX_VERIF
+    if (pgm::verif::forced_parallelism <= 0 || parallelism == 1)
+#endif
     if (parallelism == 1 || n < 1ull << 15)
         return make_segmentation(n, epsilon, in, out);
 
